@@ -13,26 +13,33 @@ from harness.common import Ck, coq_list, parse_coq_N_list
 from translate import c05_sites
 
 MANIFEST = dict(
-    technique='Rocq proof (Flocq binary64 model of Python float % 360.0: range theorem for the double modulo over all finite doubles; '
-              'exact dyadic model of format_float: shape/value/error theorems; frame theorem for frozen values) + ast site census '
-              '+ vm_compute bit-exact correspondence + history search on real objects',
-    text='Theorems in Props/C05.v: for EVERY finite binary64 x the executable Flocq model of Python\'s x % 360.0 % 360.0 is finite and in '
-         '[0,360) while a single % reaches exactly 360.0 (witness -1e-14); hence, if every store to _pitch/_yaw/_roll is a double modulo, a '
-         'copy of an angle slot or the literal 0.0, all angle slots stay in [0,360) after every history of stores with finite operands. '
-         'For format_float on every dyadic rational: the text is -?digits(.1-6 digits) with no trailing zero, no exponent, never "-0" '
-         '(given the "-0" repair), denotes exactly round-half-even(|x|*1e6)/1e6, i.e. is within 5e-7 of x. Frame theorem: with a mutation '
-         'census in which no method reachable with a frozen receiver writes its receiver, an argument, or the result of copy() of either, '
-         'frozen registers never change and non-receiver registers (sources/results of copy, freeze, thaw, pickle) are independent. '
-         'The premises (store-site list, format_float pipeline, mutation census incl. exec templates) are regenerated from math.py on every '
-         'run and kernel-checked; pymod360 is compared bit-exactly with Python % and format6 as strings with format_float; which objects an '
-         'operation changed is compared with the model frame on random histories over Vec/Angle/Matrix and their frozen twins.',
-    note='Trusted: Coq kernel + vm_compute, Flocq, translate/c05_sites.py, the hand models Num/Mod360.v and Num/Dec6.v (tied by '
-         'bit-exact/string-exact differential runs). Axioms: the classical real-number axioms of the Coq Reals library (through Flocq) for '
-         'part (a) only; parts (b), (c) are axiom-free. Assumptions visible in the theorems: operands of the modulo are finite (an overflowing '
-         'product such as Angle(359,0,0)*1e308 is outside), printf("%.6f") and float() are correctly rounded. The float VALUES produced by '
-         'rotations (sin/cos/atan2) are not modelled, only which objects are written; parse_vec_str/from_str and __format__ with a user '
-         'format spec are searched, not modelled. FrozenMatrix @ x (defect #5, repaired by the C04 change) is carved out of the census '
-         'obligation and reported by the search as a known finding. The Cython twin _math.pyx cannot be built here and is not verified.',
+    technique='Rocq proof (Flocq binary64 model of Python float % 360.0: range + identity-on-range theorems over all finite doubles; exact dyadic '
+              'model of format_float: shape/value/error theorems and the exact "-0" carve-out; model of parse_vec_str with the round-trip theorem '
+              'parse(format) within 5e-7 for every bracket/whitespace wrapping; frame + heap/alias theorems for frozen values and copies) + '
+              'fail-closed ast census of math.py (store sites, angle creations, format/parse pipelines, mutation events, result kinds of every '
+              'public method) + vm_compute correspondences (bit-exact / string-exact / parse results / frames / result aliasing) + history search',
+    text='Theorems in Props/C05.v. (a) For EVERY finite binary64 x the executable Flocq model of x % 360.0 % 360.0 is finite and in [0,360) (a '
+         'single % reaches exactly 360.0, witness -1e-14) and is the identity on [0,360); hence, if every store to _pitch/_yaw/_roll is a double '
+         'modulo, a copy of an angle slot or 0.0, all angle slots stay in [0,360) after every history of stores with finite operands. The census '
+         'also lists every expression that creates an Angle (constructor / __new__ handed to _to_angle / __new__ with all three slots stored on '
+         'every path), none unclassified. (b) Frame theorem: with a mutation census in which no method reachable with a frozen receiver writes '
+         'its receiver, an argument or a copy() of either, frozen objects never change and non-receivers are never written. Copy theorem on a '
+         'heap with aliasing: for a result-kind table in which copy/__copy__/__deepcopy__/__reduce__/freeze/thaw return a NEW object or (frozen '
+         'classes only) the receiver, and a census in which they write nothing, operating on the copy never changes the source and vice versa, '
+         'for every later history. (c) format_float on every dyadic: text is -?digits(.1-6 digits), no trailing zero, no exponent; "-0" is '
+         'printed IF AND ONLY IF the input is in the carved-out class (no repair in the source, negative, non-zero, |x|*1e6 <= 1/2); value = '
+         'round-half-even(|x|*1e6)/1e6, within 5e-7 of x. parse_vec_str as read from the source (strip, bracket sets, split, float) applied to '
+         'three formatted numbers in any documented bracket style with any whitespace returns three decimals each within 5e-7 of its component '
+         '(exact integer statement, carved-out "-0" included); with float() modelled as correctly rounded the double read back is within 5e-7 + '
+         'ulp/2. All generated premises are kernel-checked instance obligations on every run.',
+    note='Trusted: Coq kernel + vm_compute, Flocq, translate/c05_sites.py, the hand models Num/Mod360.v, Num/Dec6.v, Num/VecText.v (tied by '
+         'bit-exact / string-exact / parse-result differential runs; str.isspace() table compared on all 1114112 code points). Axioms: the four '
+         'classical real-number axioms of Coq Reals (through Flocq) for the % 360 theorems and the float() corollary only; frame, copy, format '
+         'and parse theorems are axiom-free. Assumptions: operands of the modulo are finite; printf("%.6f") and float() are correctly rounded '
+         '(float() enters as the definition py_float = round-to-nearest-even); only plain-decimal fields are predicted by the parse model (other '
+         'spellings accepted by float() - exponents, inf, underscores - get no prediction); only the public API is used. Not modelled: float '
+         'VALUES of rotations (sin/cos/atan2), equality of a copy with its source (searched), __format__ with a user spec, the Cython twin. '
+         'Known finding kept: format_float prints "-0" on the carved-out class (suite pins it); a "-0" outside that class has its own key.',
 )
 
 IMPORTS = ['Coq.ZArith.ZArith', 'Coq.NArith.NArith', 'Coq.Lists.List', 'Coq.Strings.String', 'SV.Num.Mod360', 'SV.Num.AngleSites',
@@ -700,6 +707,8 @@ def run_history(hist: list[tuple]):
                 problems.append((key, f'{cls} register {i} changed from {before[i][1]} to {after[i][1]} by {op[0]}', step))
             elif i != recv:
                 problems.append((f'non-receiver-{cls}-changed-by-{op[0]}', f'{cls} register {i} (not the receiver) changed by {op[0]}', step))
+            elif op[0] in COPY_OPS:
+                problems.append((f'source-changed-by-{op[0]}-{cls}', f'{cls} register {i} changed from {before[i][1]} to {after[i][1]} by {op[0]} of itself', step))
         # copies are equal to and distinct from their (mutable) source
         if op[0] in COPY_OPS and out and op[1] is not None and op[1] < nregs:
             src, dst = regs[op[1]], out[0]
@@ -952,11 +961,15 @@ def run(ck: Ck) -> None:
                'the value, distinct by bit pattern; format: doubles incl. exact ties k/128, tiny values, boundaries, non-trivial = output has a '
                'fraction or a sign; histories: random operation sequences (54 operation kinds) over registers of Vec/Angle/Matrix and frozen '
                'twins, non-trivial = some register changed while a frozen register exists, distinct by full history; to_angle routes: '
-               'non-trivial = a tiny non-zero operand')
-    ck.trusted.append('hand-written models Num/Mod360.v (CPython float_rem on binary64), Num/Dec6.v (printf %.6f + rstrip), '
-                      'SM/FrozenOps.v (frame) - tied by differential runs on every execution; Flocq 4 library')
+               'non-trivial = a tiny non-zero operand; parse: corpus + generated strings (three formatted/literal/exotic numbers, 0-5 fields, '
+               'stray brackets, 18 kinds of Unicode whitespace and look-alikes, all bracket styles incl. wrong ones), non-trivial = the model '
+               'predicts three decimal fields, distinct by text')
+    ck.trusted.append('hand-written models Num/Mod360.v (CPython float_rem on binary64), Num/Dec6.v (printf %.6f + rstrip), Num/VecText.v '
+                      '(str.strip/split, bracket removal, plain-decimal reader), SM/FrozenOps.v + SM/FrozenCopy.v (frame, result aliasing) - '
+                      'tied by differential runs on every execution; translate/c05_sites.py; Flocq 4 library')
     ck.assumptions += ['operands of % 360 are finite doubles (no overflow to inf/nan inside Angle arithmetic)',
-                       'C printf("%.6f") and float() are correctly rounded (IEEE 754 round-half-even)',
+                       'C printf("%.6f") and float() are correctly rounded (IEEE 754 round-half-even); float() of a plain decimal is checked against '
+                       'the exactly rounded Fraction on every parse case',
                        'only the public API is used (no writes to underscore slots, no direct calls of dunder/underscore helpers)']
     ok_t = ck.translate('AngleSites_gen', c05_sites.translate)
     side = ck.extra.get('translated', {}).get('AngleSites_gen', {})
@@ -975,6 +988,7 @@ def run(ck: Ck) -> None:
             'format_float_exact_zero_has_no_sign': 'zero_sign_ok format_float_cfg',
             'parse_vec_str_recognised': 'parse_vec_recognised',
             'parse_vec_str_pipeline_ok': 'pcfg_ok parse_vec_cfg',
+            'parse_vec_str_accepts_documented_brackets': 'accepts_documented_brackets parse_vec_cfg',
             'parse_vec_str_passes_objects_through': 'parse_passes_objects_through',
             'from_str_of_vectors_uses_parse_vec_str': 'vec_from_str_uses_parse',
             'from_str_of_angles_uses_parse_vec_str': 'angle_from_str_uses_parse',
@@ -1035,7 +1049,7 @@ def explain_failures(ck: Ck) -> None:
         ck.explain('instance:mutation_census_ok')
         ck.explain('instance:no_write_through_unknown_or_aliased_object')
         ck.explain('correspondence:frames')
-    if any(k.startswith(('copy-is-same-object', 'copy-not-equal')) for k in keys):
+    if any(k.startswith(('copy-is-same-object', 'copy-not-equal', 'source-changed-by')) for k in keys):
         ck.explain('instance:copy_')
         ck.explain('correspondence:results')
 
